@@ -31,6 +31,8 @@ def one(d):
         return name, "patch-does-not-apply"
     mm = re.search(r"exit=(\d+)", out)
     rc = int(mm.group(1)) if mm else -1
+    if rc == 0 and m.get("reported_as"):
+        return name, "caught-as-drift-by-design"      # does not violate the property as stated (see its meta.json)
     return name, "caught" if rc == 1 else ("MISSED" if rc == 0 else "exit %d" % rc)
 
 
